@@ -777,6 +777,9 @@ class Interp:
             if ca is _MISSING:
                 if '__getattr__' in _mro_dict(obj.cls):
                     return self.call(_mro_dict(obj.cls)['__getattr__'], [obj, name], {}, node)
+                if not obj.complete and not name.startswith('__'):
+                    # not an AttributeError of the program: the contract's (partial) instance does not say what this is
+                    raise Unsupported(f'attribute {name!r} of {obj.cls.__name__} is not part of the instance state the contract supplies')
                 self.raise_(AttributeError, f'{obj.cls.__name__} object has no attribute {name}', node=node)
             return self.descr_get(ca, obj, obj.cls, node)
         if isinstance(obj, Opaque):
